@@ -37,6 +37,7 @@ def run_cell(args):
     cell, opts = args
     mod, orc, hname = _W["mod"], _W["oracle"], _W["hname"]
     t0 = time.time()
+    c0 = time.process_time()
     eng = core.Engine(max_decisions=getattr(mod, "MAX_DECISIONS", 20000),
                       path_seconds=getattr(mod, "PATH_SECONDS", 20),
                       solver_timeout_ms=getattr(mod, "SOLVER_TIMEOUT_MS", 20000),
@@ -64,8 +65,8 @@ def run_cell(args):
             if stop_cell:
                 res["exhaustive"] = False
                 break
-            if time.time() - t0 > cell_seconds:
-                res["engine"].append("cell budget of %ds exhausted: cell=%s" % (cell_seconds, json.dumps(cell)))
+            if time.process_time() - c0 > cell_seconds:
+                res["engine"].append("cell budget of %ds cpu exhausted: cell=%s" % (cell_seconds, json.dumps(cell)))
                 res["exhaustive"] = False
                 break
             ctx = holder[0]
